@@ -73,20 +73,32 @@ fn second_glyph(_c: &Case, j: u32) -> u16 {
 
 // --- spec-side encoders for the expected values (independent of write-fonts) --
 
-/// start size 9 + i % 5 and three 2-bit deltas from (31 i + 7 j) mod 64: 320 distinct device
-/// tables, so that a mix-up of device offsets between rules is visible
+/// start size 9 + i % 5 and three deltas from -2..=2 taken from (31 i + 7 j) mod 125: 625 distinct
+/// device tables (a mix-up of device offsets between rules is visible); +2 sits just outside the
+/// 2-bit range -2..=1, +/- the format boundary, so both 2-bit and 4-bit tables occur
 fn device_values(i: u32, j: u32) -> (u16, [i8; 3]) {
-    let h = (31 * i + 7 * j) % 64;
-    (9 + (i % 5) as u16, [(h % 4) as i8 - 2, ((h / 4) % 4) as i8 - 2, ((h / 16) % 4) as i8 - 2])
+    let h = (31 * i + 7 * j) % 125;
+    (9 + (i % 5) as u16, [(h % 5) as i8 - 2, ((h / 5) % 5) as i8 - 2, ((h / 25) % 5) as i8 - 2])
 }
+/// spec encoder: smallest format whose SIGNED range holds every delta (1: -2..=1, 2: -8..=7,
+/// 3: -128..=127), packed most significant first
 fn expected_device((start, vals): (u16, [i8; 3])) -> Dev {
-    // all values in -2..=1 => 2-bit format (1), eight per word, most significant first
-    let mut word = 0u16;
+    let (format, bits) = if vals.iter().all(|d| (-2..=1).contains(d)) {
+        (1u16, 2usize)
+    } else if vals.iter().all(|d| (-8..=7).contains(d)) {
+        (2, 4)
+    } else {
+        (3, 8)
+    };
+    let per_word = 16 / bits;
+    let mask = (1u16 << bits) - 1;
+    let mut words = vec![0u16; (vals.len() + per_word - 1) / per_word];
     for (n, v) in vals.iter().enumerate() {
-        word |= ((*v as u16) & 3) << (14 - 2 * n);
+        words[n / per_word] |= ((*v as i16 as u16) & mask) << (16 - bits * (n % per_word + 1));
     }
-    Dev::Device { start, end: start + 2, format: 1, words: vec![word] }
+    Dev::Device { start, end: start + 2, format, words }
 }
+
 
 fn pair_values(c: &Case, lookup: u32, i: u32, j: u32) -> (Val, Val, w::ValueRecord, w::ValueRecord) {
     let adv = ((lookup * 31 + i * 7 + j) % 30000) as i16 + 1;
